@@ -488,7 +488,7 @@ IterStep(st) ==
 (********************************* evaluation *******************************)
 RECURSIVE Eval(_, _, _), EvalTerm(_, _, _), EvalBase(_, _, _), EvalFn(_, _, _, _), Call(_, _, _, _), EvalArgs(_, _, _, _, _),
           EvalObj(_, _, _, _, _), EvalStr(_, _, _, _), EvalIdx(_, _, _, _), EvalIf(_, _, _, _, _, _), EvalBind(_, _, _, _),
-          Destr(_, _, _, _, _), DestrSeq(_, _, _, _, _, _), Reduce(_, _, _), Foreach(_, _, _), PatVarsOf(_), CutLabel(_, _), EvalDefs(_, _, _)
+          Destr(_, _, _, _, _), DestrSeq(_, _, _, _, _, _), Reduce(_, _, _), Foreach(_, _, _), PatVarsOf(_), CutLabel(_, _, _), EvalDefs(_, _, _)
 
 (* evaluate argument queries for a native call: last argument first (outermost loop), each on the call's input; *)
 (* results [k |-> "a", vals, s] with the path context threaded through, or a terminating outcome               *)
@@ -564,7 +564,10 @@ EvalTerm(t, st, env) ==
                              ELSE IF m > 0 /\ HasF(lastS, "iter") THEN IterAll.term ELSE base
                   pre == IF m > 0 /\ (HasF(lastS, "index") \/ HasF(lastS, "iter")) THEN WithSuffixes(base, SubSeq(base.suffix_list, 1, m - 1)) ELSE <<>>
                   tryIt(x) == LET os == EvalTerm(tryBody, x, env) IN
-                              IF Ended(os) /\ os[Len(os)].k = "e" THEN WithEff(SubSeq(os, 1, Len(os) - 1), x, os[Len(os)].s) ELSE os
+                              IF Ended(os) /\ os[Len(os)].k = "e" THEN
+                                  (IF os[Len(os)].s.alt /\ ~x.alt THEN Append(SubSeq(os, 1, Len(os) - 1), Unm(os[Len(os)].s, "error downstream of a live destructuring alternative"))
+                                   ELSE WithEff(SubSeq(os, 1, Len(os) - 1), x, os[Len(os)].s))
+                              ELSE os
               IN IF pre = <<>> THEN tryIt(st) ELSE FlatMap(EvalTerm(pre, st, env), st, LAMBDA x : tryIt(x))
 
 (* T[key], T[a:b], T.name, T."str": constant keys index T's outputs directly; computed keys are evaluated first (on the input, *)
@@ -740,7 +743,7 @@ Foreach(f, st, env) ==
                               ds == Destr(f.pattern, it.v, it.id, env, cur)
                               RECURSIVE D(_, _)
                               D(m, a) == IF m > Len(ds) THEN <<[k |-> "acc", s |-> a]>> ELSE IF ds[m].k # "env" THEN <<ds[m]>>
-                                         ELSE LET us == Eval(f.update, [it EXCEPT !.v = a.v, !.id = NoId, !.ins = ds[m].s.ins, !.side = ds[m].s.side, !.alt = st.alt], ds[m].e)
+                                         ELSE LET us == Eval(f.update, [it EXCEPT !.v = a.v, !.id = NoId, !.ins = ds[m].s.ins, !.side = ds[m].s.side, !.alt = st.alt \/ it.alt], ds[m].e)
                                                   RECURSIVE U(_, _)
                                                   U(n, a2) == IF n > Len(us) THEN <<[k |-> "acc", s |-> IF Vals(us) = <<>> THEN Back(a2, LastSt(us, a2)) ELSE a2]>>
                                                               ELSE IF IsN(us[n]) THEN U(n + 1, a2)
@@ -756,9 +759,11 @@ Foreach(f, st, env) ==
                           ELSE SubSeq(after, 1, Len(after) - 1) \o G(j + 1, after[Len(after)].s)
         IN G(1, [base EXCEPT !.v = s0.v, !.id = NoId]))
 
-CutLabel(os, id) == LET is == {i \in 1 .. Len(os) : os[i].k = "b" /\ os[i].l = id} IN
+CutLabel(os, id, entryAlt) == LET is == {i \in 1 .. Len(os) : os[i].k = "b" /\ os[i].l = id} IN
                     IF is = {} THEN os
-                    ELSE LET n == CHOOSE i \in is : \A j \in is : i <= j IN Append(SubSeq(os, 1, n - 1), Nop(os[n].s))
+                    ELSE LET n == CHOOSE i \in is : \A j \in is : i <= j IN
+                         IF os[n].s.alt /\ ~entryAlt THEN Append(SubSeq(os, 1, n - 1), Unm(os[n].s, "error downstream of a live destructuring alternative"))      \* the break would first re-enter the alternative
+                         ELSE Append(SubSeq(os, 1, n - 1), Nop(os[n].s))
 
 EvalBase(t, st, env) ==
     LET ty == t.type IN
@@ -802,13 +807,14 @@ EvalBase(t, st, env) ==
             LET os == Eval(t.try.body, st, env) IN
             IF Ended(os) /\ os[Len(os)].k = "e" THEN
                 LET e == os[Len(os)] kept == SubSeq(os, 1, Len(os) - 1) IN
-                IF HasF(t.try, "catch") THEN kept \o Eval(t.try.catch, [Fresh(Back(NP(st), e.s), e.v) EXCEPT !.alt = st.alt], env) ELSE WithEff(kept, st, e.s)
+                IF e.s.alt /\ ~st.alt THEN Append(kept, Unm(e.s, "error downstream of a live destructuring alternative"))
+                ELSE IF HasF(t.try, "catch") THEN kept \o Eval(t.try.catch, [Fresh(Back(NP(st), e.s), e.v) EXCEPT !.alt = st.alt], env) ELSE WithEff(kept, st, e.s)
             ELSE os
       [] ty = "TermTypeReduce" -> Reduce(t.reduce, st, env)
       [] ty = "TermTypeForeach" -> Foreach(t.foreach, st, env)
       [] ty = "TermTypeLabel" ->
             LET id == env.dc + 1 IN
-            CutLabel(Eval(t.label.body, st, [env EXCEPT !.dc = id, !.labels = Append(@, [n |-> t.label.ident, id |-> id])]), id)
+            CutLabel(Eval(t.label.body, st, [env EXCEPT !.dc = id, !.labels = Append(@, [n |-> t.label.ident, id |-> id])]), id, st.alt)
       [] ty = "TermTypeBreak" -> LET id == LookupLabel(env, t.break) IN IF id = 0 THEN <<Unm(st, "break without label")>> ELSE <<Brk(st, id)>>
       [] ty = "TermTypeQuery" -> Eval(t.query, st, env)
 
@@ -864,7 +870,8 @@ EvalFn(n, args, st, env) ==
            [] n = "last" /\ ar = 1 ->
                  LET os == Eval(args[1], st, env) vs == Vals(os) IN
                  IF Ended(os) THEN <<os[Len(os)]>> ELSE IF vs = <<>> THEN WithEff(<<>>, st, LastSt(os, st))
-                 ELSE <<OutV(Back(vs[Len(vs)].s, LastSt(os, st)))>>
+                 \* the generator is exhausted before the value is delivered: the path context is the caller's again
+                 ELSE <<OutV([Back(st, LastSt(os, st)) EXCEPT !.v = vs[Len(vs)].s.v, !.id = vs[Len(vs)].s.id, !.alt = st.alt])>>
            [] n = "input" /\ ar = 0 ->
                  IF st.ins = <<>> THEN <<ErrM(st, JStr(LibStr["break"]))>>
                  ELSE <<OutV(Fresh([st EXCEPT !.ins = Tail(st.ins)], Head(st.ins)))>>
